@@ -51,6 +51,9 @@ type Input struct {
 	// CacheFault: "" | get (every lookup fails, not a miss) | set | get-once; Discard: HTTPFetcher.DiscardCacheError
 	CacheFault string
 	Discard    bool
+	// CancelAt > 0: the caller's context ends the moment the CancelAt-th request
+	// of a ValidateContext call reaches the network
+	CancelAt int
 }
 
 // lyingLengths are announced body sizes a server can claim
@@ -804,6 +807,10 @@ func genHostileBody(rng *rand.Rand, idx int) Input {
 	if upper {
 		desc = append(desc, "ca1: two distribution points (first truncated), answers released together")
 		in.Together = true
+	}
+	if !in.Together && rng.IntN(5) == 0 {
+		in.CancelAt = 1 + rng.IntN(3)
+		desc = append(desc, fmt.Sprintf("caller's context ends at request %d", in.CancelAt))
 	}
 	in.Desc = "hostile-body " + strings.Join(desc, " | ")
 	return in
